@@ -225,10 +225,12 @@ def check_params(case, viol):
             a = a * 180.0 / np.pi
         return {'xyz': (x, y, z), 'zyx': (z, y, x), 'xyzas': (x, y, z, a, s), 'xyzsa': (x, y, z, s, a)}[kp['format']]
     data = dict(image=img, bboxes=[fmt_box(b) for b in case['boxes']], lab=list(range(len(case['boxes']))),
-                keypoints=[fmt_kp(k) for k in case['kps']], ids=['k%d' % i for i in range(len(case['kps']))])
+                keypoints=[fmt_kp(k) for k in case['kps']], ids=['k%d' % i for i in range(len(case['kps']))],
+                image2=(img * 2).astype('int32'), mask2=img.copy())
     tf = [A.Crop(x_min=w[0], y_min=w[1], z_min=w[2], x_max=w[3], y_max=w[4], z_max=w[5], p=1.0), A.HorizontalFlip(p=0.5)]
     try:
-        pipe = A.ReplayCompose(tf, bbox_params=A.BboxParams(**bp), keypoint_params=A.KeypointParams(**kp))
+        pipe = A.ReplayCompose(tf, bbox_params=A.BboxParams(**bp), keypoint_params=A.KeypointParams(**kp),
+                               additional_targets={'image2': 'image', 'mask2': 'mask'})
         random.seed(case['seed'])
         res = pipe(**copy.deepcopy(data))
     except Exception:  # noqa -- C08's question
